@@ -33,7 +33,9 @@ def _module(path):
 
 
 def clear_cache():
+    global _class_table
     _cache.clear()
+    _class_table = None
 
 
 def find_function(target):
@@ -84,4 +86,52 @@ def module_constants(path):
         if isinstance(ch, ast.Assign) and len(ch.targets) == 1 and isinstance(ch.targets[0], ast.Name):
             if isinstance(ch.value, ast.Constant):
                 out[ch.targets[0].id] = ch.value.value
+    return out
+
+
+_class_table = None
+
+
+def class_table():
+    """{class name: [base class names]} for every class defined in the repository package (from the AST)"""
+    global _class_table
+    if _class_table is None:
+        tbl = {}
+        root = os.path.join(REPO, 'spatialpandas')
+        for dp, dn, fn in os.walk(root):
+            if 'tests' in dp.split(os.sep):
+                continue
+            for f in fn:
+                if not f.endswith('.py'):
+                    continue
+                try:
+                    with open(os.path.join(dp, f)) as fh:
+                        tree = ast.parse(fh.read())
+                except (OSError, SyntaxError):
+                    continue
+                for node in ast.walk(tree):
+                    if isinstance(node, ast.ClassDef):
+                        bases = []
+                        for b in node.bases:
+                            if isinstance(b, ast.Name):
+                                bases.append(b.id)
+                            elif isinstance(b, ast.Attribute):
+                                bases.append(b.attr)
+                        tbl[node.name] = bases
+        _class_table = tbl
+    return _class_table
+
+
+def mro(cls):
+    """simple depth-first linearisation (sufficient for the single-inheritance-plus-mixin classes here)"""
+    tbl = class_table()
+    out = []
+
+    def walk(c):
+        if c in out:
+            return
+        out.append(c)
+        for b in tbl.get(c, []):
+            walk(b)
+    walk(cls)
     return out
